@@ -398,6 +398,9 @@ func checkConn(sc connScenario, r *connResult) []connVerdict {
 			if errClass == "nil" && len(c.want) <= c.ctxCap && want == "nil" && respKind[k] == "ok" {
 				used = len(c.want)
 			}
+			if used > 0 && string(c.ctxBuf[:used]) != string(c.want) {
+				add("C19", "context-buffer-used", "C19/ctxbuf-not-used", fmt.Sprintf("call %d: the supplied buffer (cap %d) is large enough for the %d-byte reply but does not hold it", k, c.ctxCap, used))
+			}
 			for i := used; i < c.ctxCap; i++ {
 				if c.ctxBuf[i] != 0xC5 {
 					if errClass == "canceled" {
